@@ -62,6 +62,9 @@ func aolRules(p *Prog, r *Report, clause string, want func(tag string) bool) *ao
 						b, ok := c.Call.Value.(*ssa.Builtin)
 						return ok && b.Name() == "append"
 					}, "the list accessor returns every entry it iterates over (no conditional skip)")
+					// the two result lists are parallel (keys[i] belongs to values[i]): once the loop is over nothing touches one of
+					// them — a sort, a filter or a reversal of the keys alone pairs every key with another entry's value
+					checkParallelResultsUntouched(p, r, kp("ORIGIN", FuncName(a.Fn)+"#parallel-results-untouched"), a.Fn)
 				}
 				if a.Op != "Iterator" {
 					checkAccessorShape(p, r, kp("SHAPE", FuncName(a.Fn)), "unconditional single operation on the marshalled parameter / unmarshalled store value", a.SO, 1)
